@@ -120,6 +120,7 @@ def check(prop, mod, a, seed, t0):
     solve.discharge(eng, obs)
     # --- anti-vacuity: statement coverage over path ends that are not provably infeasible
     cover = solve.cover_check(eng)
+    no_normal = []
     # --- sub-engines: targets that need a different model of the same classes (e.g. the tokenizer at character level next to
     # the parser that uses it through a ghost token stream) run in an engine of their own - own schema, own axioms - and their
     # obligations, targets and coverage are merged into the report
@@ -155,6 +156,9 @@ def check(prop, mod, a, seed, t0):
             unreached[t.name] = miss
         t._miss = set(miss)
         t._nstmts = len(t._stmt_lines)
+        # postconditions are only worth something if SOME normal return is feasible under the precondition and the model
+        if t.ensures and d["ends"] and not d.get("normal_reachable", False) and not getattr(t, "may_never_return", False):
+            no_normal.append(t.name)
         eng.target_results[t.name]["path_ends"] = d["ends"]
         eng.target_results[t.name]["infeasible_path_ends"] = d["infeasible_ends"]
     # targets that split one function by argument type (cover_group) pool their reached statements: a statement is
@@ -265,6 +269,9 @@ def check(prop, mod, a, seed, t0):
         return 1
     if hard:
         print("CHECKER-ERROR vacuity guard: unreachable statements in", sorted(hard))
+        return 3
+    if no_normal:
+        print("CHECKER-ERROR vacuity guard: no feasible normal return (postconditions would hold vacuously) in", sorted(no_normal))
         return 3
     if unreached:
         print("NOTE partial coverage: statements excluded by the declared parameter types / preconditions in", sorted(unreached),
